@@ -291,6 +291,10 @@ class Std(Scenario):
                             do(('connect', a, p.clean, 0, p.level))
                             progressed = True
                             ph = w.phase(c)
+                    if ph == 'refused' and c.open:
+                        do(('lose', a, 'done'))         # a broker closes the connection it has refused
+                        progressed = True
+                        continue
                     if ph == 'connecting' and c.open:
                         do(('connack', a, 0, False))
                         progressed = True
